@@ -47,6 +47,9 @@ pub enum Item {
         /// signature wrapped: `def name(` / one parameter per line / `):`
         #[serde(default)]
         wrapped: bool,
+        /// whole function on one line: `def name(params): return 1`
+        #[serde(default)]
+        oneline: bool,
     },
     /// `def test_<name>(params)` optionally decorated with usefixtures / indirect parametrize
     Test {
@@ -89,6 +92,7 @@ impl Item {
             yields: false,
             doc: None,
             wrapped: false,
+            oneline: false,
         }
     }
     pub fn scoped(name: &str, deps: &[&str], scope: Scope) -> Item {
@@ -276,6 +280,7 @@ impl Ws {
                         yields,
                         doc,
                         wrapped,
+                        oneline,
                     } => {
                         push(&mut out, "", &mut line);
                         let mut args = Vec::new();
@@ -338,6 +343,21 @@ impl Ws {
                             }
                         }
                         s.push(':');
+                        if *oneline && !wrap {
+                            s.push_str(" return 1");
+                            push(&mut out, &s, &mut line);
+                            r.defs.push(DefSite {
+                                id: DefId { file: fi, item: ii },
+                                name: name.clone(),
+                                line: def_line,
+                                start: 4,
+                                end: 4 + name.len(),
+                                end_line: def_line,
+                                yield_line: None,
+                            });
+                            push(&mut out, "", &mut line);
+                            continue;
+                        }
                         push(&mut out, &s, &mut line);
                         if let Some(d) = doc {
                             push(&mut out, &format!("    \"\"\"{}\"\"\"", d), &mut line);
